@@ -21,7 +21,7 @@ RULE = ('roundtrip units: cookie names from the token alphabet x plain values (t
         'position x {16 substitution symbols, deletion, truncation} in quoted and unquoted transport form, plus swaps / length changes / '
         'other secret / other name. Non-trivial = a signed cookie, or a plain value needing quoting; distinct = distinct Cookie header.')
 PYOPT = {'quick': 1, 'thorough': 1}     # one unit of every kind is also served by an interpreter started with -O (assert statements compiled out)
-REQUIRED = ['units_run_under_python_-O', 'cookie_on_a_raised_response_over_one_of_the_application_response', 'tampered_header_put_on_a_request_that_had_read_the_genuine_one', 'cookie_on_a_response_without_body(204/304)', 'set_after_earlier_cookie_operations', 'emitted_by_a_copied_response', 'plain_roundtrips', 'signed_roundtrips', 'quoted_values', 'tamper_reads', 'tamper_substitution', 'tamper_deletion',
+REQUIRED = ['units_run_under_python_-O', 'same_object_signed_in_an_earlier_state', 'cookie_on_a_raised_response_over_one_of_the_application_response', 'tampered_header_put_on_a_request_that_had_read_the_genuine_one', 'cookie_on_a_response_without_body(204/304)', 'set_after_earlier_cookie_operations', 'emitted_by_a_copied_response', 'plain_roundtrips', 'signed_roundtrips', 'quoted_values', 'tamper_reads', 'tamper_substitution', 'tamper_deletion',
             'tamper_truncation', 'tamper_swap', 'tamper_other_secret', 'tamper_other_name', 'unpickler_calls_observed', 'read_as_absent',
             'via_wsgi', 'unquoted_form', 'among_other_cookies']
 ASSUMPTIONS = ['cookie names are RFC 6265 tokens accepted by http.cookies; values are non-empty and at most 4096 characters',
@@ -56,12 +56,28 @@ def apply_prior(resp, prior, name):
 STATUSES = [200, 200, 204, 304, 302, 404, 500, 201]     # a cookie travels with any response, also with those that carry no body
 
 
+def mutate_in_place(obj):
+    """put a dict / list into an 'earlier state' in place; -> function that restores the present state (in place as well)"""
+    if isinstance(obj, dict):
+        obj['__earlier__'] = 'state'
+        return lambda: obj.pop('__earlier__')
+    obj.append('__earlier__')
+    return lambda: obj.pop()
+
+
 def set_and_emit(kind, name, value, secret=None, prior='none', status=200, **opts):
     """-> the Set-Cookie header value as handed to the server (latin-1 form).
     kind 'Response' | 'HTTPResponse' | 'copied' (set on a Response, emitted by its copy: what redirect() does)"""
     from ombott.response import Response, HTTPResponse
     r = HTTPResponse('b') if kind == 'HTTPResponse' else Response()
     apply_prior(r, prior, name)
+    if prior == 'signed_before_it_changed':
+        # the same (mutable) object was signed a moment ago in an earlier state: what is signed now is what it holds now
+        earlier = HTTPResponse('b')
+        undo = mutate_in_place(value)
+        earlier.set_cookie(name, value, secret=secret, **opts)
+        r.set_cookie(name, value, secret=secret, **opts)
+        undo()
     r.set_cookie(name, value, secret=secret, **opts)
     if prior in ('failed_reset_after',):
         # the application tries to set the same cookie again with an option http.cookies refuses, and carries on: the cookie stays set
@@ -171,15 +187,19 @@ def roundtrip_unit(ctx, unit):
         signed = rng.random() < 0.45
         secret = rng.choice(SECRETS) if signed else None
         if signed:
-            value = rng.choice(OBJECTS)
+            import copy
+            value = copy.deepcopy(rng.choice(OBJECTS))
             if rng.random() < 0.3:
-                value = {'k': rng.choice(OBJECTS), 'r': rng.getrandbits(40)}
+                value = {'k': copy.deepcopy(rng.choice(OBJECTS)), 'r': rng.getrandbits(40)}
         else:
             value = rng.choice(PLAIN)
             if rng.random() < 0.4:
                 value = rng.choice(PLAIN)[:20] + rng.choice(PLAIN)[:20]
         mode = rng.choice(['object', 'object', 'wsgi'])
         prior = rng.choice(PRIORS)
+        if signed and type(value) in (dict, list) and mode == 'object' and rng.random() < 0.5:
+            prior = 'signed_before_it_changed'
+            ctx.count('same_object_signed_in_an_earlier_state')
         if mode == 'wsgi' and rng.random() < 0.25:
             prior = 'raised_over_a_cookie_of_the_response'
             ctx.count('cookie_on_a_raised_response_over_one_of_the_application_response')
